@@ -58,6 +58,30 @@ def make_event(case):
                 rets = "exc:" + type(e).__name__
             full["stops"].append({"k": k, "calls": calls_k, "ret": rets})
         ev["orders"][o] = full
+    # traversals started at an inner node stay inside that node's subtree (depths count from the start node)
+    ev["sub"] = []
+    if len(objs) <= 7:
+        for start in objs.keep:
+            if start is root:
+                continue
+            for o, meth in ORD.items():
+                calls = []
+
+                def rec_s(node, depth, data, calls=calls):
+                    calls.append([objs.of(node), depth])
+                    return None
+                try:
+                    ret = getattr(start, meth)(rec_s)
+                    rets = "none" if ret is None else str(ret)
+                except BaseException as e:  # noqa
+                    rets = "exc:" + type(e).__name__
+                item = {"start": objs.of(start), "o": o, "calls": calls[:64], "ret": rets, "tolist": []}
+                if hasattr(start, "to_list"):
+                    try:
+                        item["tolist"] = [objs.of(n) for n in start.to_list(LIST[o])][:64]
+                    except BaseException:  # noqa
+                        item["tolist"] = [-1]
+                ev["sub"].append(item)
     q = {"root": [], "rootside": [], "side": [], "sibling": [], "children": [], "leaf": []}
     for nd in objs.keep:
         def safe(f):
